@@ -16,6 +16,7 @@ import Fir.Proofs.ImageLemmas
 import Fir.Proofs.TwoPassLemmas
 import Fir.Proofs.IdealFilterLemmas
 import Fir.Proofs.TwoPass16Lemmas
+import Fir.Proofs.FloatLemmas
 
 namespace Fir.C18
 open Fir
@@ -251,6 +252,31 @@ theorem twoPass_monotone_u16 (src src' : Img) (dstW dstH tempH yFirst : Nat) (hc
     (vertPass .u16 (horizPass .u16 src dstW tempH yFirst hc) dstW dstH 0 vc).get x y ch
       ≤ (vertPass .u16 (horizPass .u16 src' dstW tempH yFirst hc) dstW dstH 0 vc).get x y ch :=
   Fir.Proofs.twoPass_monotone_u16 src src' dstW dstH tempH yFirst hc vc hn hpH hpV hkH hkV hle haccH hfit haccV x y ch hx hy hc'
+
+/-! ### I32 and the float formats: order preservation is exact for every monotone rounding -/
+
+open Fir.Flt in
+/-- raising any sample never lowers the rounded f64 sum when all coefficients are non-negative - for the
+    portable loop ... -/
+theorem float_pass_monotone (fl : ℚ → ℚ) (hfl : Monotone fl) (ks xs ys : List ℚ) (hk : ∀ k ∈ ks, 0 ≤ k)
+    (hxy : List.Forall₂ (· ≤ ·) xs ys) : accF fl ks xs 0 ≤ accF fl ks ys 0 :=
+  accF_mono fl hfl ks xs ys hk hxy 0 0 (le_refl 0)
+
+open Fir.Flt in
+/-- ... and for every summation order (SIMD lanes, horizontal adds); the final `round() as i32` and
+    `as f32` are monotone too (C17.roundHalfAway_mono, `Monotone fl32`), so I32 / F32 results are ordered
+    exactly, per back-end -/
+theorem float_tree_monotone (fl : ℚ → ℚ) (hfl : Monotone fl) (k : ℕ → ℚ) (hk : ∀ i, 0 ≤ k i) (x y : ℕ → ℚ)
+    (hxy : ∀ i, x i ≤ y i) (t : Shape) : t.eval fl x k ≤ t.eval fl y k :=
+  eval_mono fl hfl k hk x y hxy t
+
+open Fir.Flt in
+/-- no overshoot for floats: the rounded sum of samples in `[lo, hi]` lies between the rounded sums of
+    the constant rows `lo` and `hi` (which C10.uniform_float places within rounding error of `lo`, `hi`) -/
+theorem float_range (fl : ℚ → ℚ) (hfl : Monotone fl) (k : ℕ → ℚ) (hk : ∀ i, 0 ≤ k i) (x : ℕ → ℚ) (lo hi : ℚ)
+    (hx : ∀ i, lo ≤ x i ∧ x i ≤ hi) (t : Shape) :
+    t.eval fl (fun _ => lo) k ≤ t.eval fl x k ∧ t.eval fl x k ≤ t.eval fl (fun _ => hi) k :=
+  ⟨eval_mono fl hfl k hk _ _ (fun i => (hx i).1) t, eval_mono fl hfl k hk _ _ (fun i => (hx i).2) t⟩
 
 /-! ### non-vacuity -/
 example : passInt .u8 [8192, 8192] [10, 20] 14 ≤ passInt .u8 [8192, 8192] [10, 21] 14 := by decide
